@@ -110,10 +110,20 @@ class BaseRunner(metaclass=ABCMeta):
             pass
 
 
+def _printable(obj) -> str:
+    """``str(obj)``, or a placeholder for an object that cannot be printed"""
+    try:
+        return str(obj)
+    except Exception:  # reporting a failure must not fail itself
+        return "<unprintable %s object>" % type(obj).__name__
+
+
 class OrphanedReturn(Exception):
     """A runnable returned a value without anyone to receive it"""
 
     def __init__(self, who, value):
-        super().__init__("no caller to receive %s from %s" % (value, who))
+        super().__init__(
+            "no caller to receive %s from %s" % (_printable(value), _printable(who))
+        )
         self.who = who
         self.value = value
